@@ -367,6 +367,7 @@ def run_check(mod, argv):
         if rp.get("case") is None:
             print("replay names a broken obligation, no input: %s" % json.dumps(rp.get("broken")))
             sys.exit(1 if coq_problem else 0)
+        mark_case(rp["case"])
         r = mod.run_case(ctx, rp["case"])
         print("replay:", "STILL FAILS" if not r.ok else "passes", json.dumps(r.detail, default=str)[:2000])
         sys.exit(0 if r.ok else 1)
@@ -387,6 +388,7 @@ def run_check(mod, argv):
         if k in seen:
             return
         seen.add(k)
+        mark_case(case)
         try:
             r = mod.run_case(ctx, case)
         except ModelError as e:
@@ -465,6 +467,17 @@ def run_check(mod, argv):
     print("OK property=%s tier=%s obligations=%d evaluations=%d distinct_nontrivial=%d wall=%.1fs" %
           (pid, tier, len(theorems), evaluations, len(nontrivial), time.time() - t0))
     sys.exit(0)
+
+
+def mark_case(case):
+    """records the case about to be run, for the supervisor in ./check (a kernel that corrupts memory can kill this process)"""
+    path = os.environ.get("VERIF_CASE_MARKER")
+    if path:
+        try:
+            with open(path, "w") as f:
+                json.dump(case, f, default=str)
+        except (OSError, TypeError, ValueError):
+            pass
 
 
 def gen_files_needed(pid):
